@@ -18,6 +18,7 @@ type LightFamily struct {
 	UndoBud int
 	Prop    string // C07 | C08 | C11: which oracle clauses are reported
 	RemMode string // "" = every subset of the additions; "all"; "none"
+	Collect string // when set, violations of this property are collected instead of Prop's
 }
 
 type lightFrame struct {
@@ -224,7 +225,11 @@ func containsHash(hs []Hash, h Hash) bool {
 
 func (f *LightFamily) Step(n *Node, op Op) StepResult {
 	hist := append(append([]Op(nil), n.Hist...), op)
-	x := NewExec(f.Prop, func() Case { return mkCase("light", lightPayload{Fam: *f, Hist: hist}) })
+	xp := f.Prop
+	if f.Collect != "" {
+		xp = f.Collect
+	}
+	x := NewExec(xp, func() Case { return mkCase("light", lightPayload{Fam: *f, Hist: hist}) })
 	c, md, ok, evals := f.run(x, hist)
 	res := StepResult{Evals: evals}
 	if ok {
